@@ -79,7 +79,7 @@ def check(ctx):
     ctx.decide(isinstance(mask, list) and set(mask) == set(KEY_FIELD), "R-TABLE/config-mask", "bromelia._internal_utils.config_mask",
                m.rel, "config_mask lists the 12 published keys",
                f"config_mask = {mask} differs from the 12 published configuration keys", key="mask")
-    loops = [s for s in fn.body if isinstance(s, ast.For)]
+    loops = [s for s in walk_no_nested(fn) if isinstance(s, ast.For)]
     main = None
     for lp in loops:
         if isinstance(lp.target, ast.Tuple) and len(lp.target.elts) == 2 and ast.unparse(lp.iter).endswith(".items()"):
@@ -88,28 +88,43 @@ def check(ctx):
         ctx.undecided("R-FLOW/config", construct, where, "no `for key, value in config.items()` loop", key="loop")
         return
     keyvar, valvar = [e.id for e in main.target.elts]
-    br = _branches(main, keyvar)
+    # one iteration of the loop per published key, on terms (bsa.sym): key = the key string, value = V
+    from .. import sym
+    V = sym.S("value")
+    per_key = {}
+    interp = sym.Interp(fold=lambda e: repo.fold(m, e), log_calls=True)
+    for K in KEY_FIELD:
+        try:
+            per_key[K] = interp.loop_body(main, {keyvar: K, valvar: V})
+        except sym.TooMany:
+            per_key[K] = None
+    br = {}
+    for K, paths in per_key.items():
+        if paths is None:
+            ctx.undecided("R-FLOW/config", construct, where, f"too many paths for key {K}", key=f"paths:{K}")
+            continue
+        done = [p_ for p_ in paths if p_.term in ("fall", "continue")]
+        stores = [sorted(n_ for n_, v_ in p_.env.items() if v_ == V and n_ not in (keyvar, valvar) and "." not in n_) for p_ in done]
+        if done:
+            br[K] = main
     ctx.floor("config_key_branches", len(br), 12)
     cfg = make_cfg(repo, fn)
     dom = cfg.dominators()
     # local variable fed by each key
     local_of = {}
-    store_node = {}
-    for K, iff in br.items():
-        stores = []
-        for s in iff.body:
-            for n in walk_no_nested(s):
-                if isinstance(n, ast.Assign) and len(n.targets) == 1 and isinstance(n.targets[0], ast.Name):
-                    stores.append(n)
-        direct = [n for n in stores if isinstance(n.value, ast.Name) and n.value.id == valvar]
-        if len(direct) != 1:
-            if K in KEY_FIELD:
-                ctx.violate("R-FLOW/config", construct, f"{m.rel}:{iff.lineno}",
-                            f"branch for key {K} stores the configured value unchanged {len(direct)} time(s) "
-                            f"(stores: {[ast.unparse(n) for n in stores]}): the value is altered or dropped", key=f"store:{K}")
+    for K, paths in per_key.items():
+        if paths is None:
             continue
-        local_of[K] = direct[0].targets[0].id
-        store_node[K] = direct[0]
+        done = [p_ for p_ in paths if p_.term in ("fall", "continue")]
+        stores = {tuple(sorted(n_ for n_, v_ in p_.env.items() if v_ == V and n_ not in (keyvar, valvar) and "." not in n_)) for p_ in done}
+        if len(stores) != 1 or len(next(iter(stores))) != 1:
+            altered = sorted({(n_, sym.show(v_)[:50]) for p_ in done for n_, v_ in p_.env.items()
+                              if n_ not in (keyvar, valvar) and "." not in n_ and v_ != V})
+            ctx.violate("R-FLOW/config", construct, where,
+                        f"key {K}: the configured value is not stored unchanged into exactly one local on every accepting path "
+                        f"(locals holding it: {sorted(stores)}; other stores: {altered[:4]}): the value is altered or dropped", key=f"store:{K}")
+            continue
+        local_of[K] = next(iter(stores))[0]
     # constructor calls
     field_src = {}
     for c in fn_calls(fn):
@@ -122,7 +137,7 @@ def check(ctx):
         src = field_src.get(("Connection", fld))
         ok = False
         if isinstance(src, ast.Name):
-            for s in fn.body:
+            for s in walk_no_nested(fn):
                 if isinstance(s, ast.Assign) and isinstance(s.targets[0], ast.Name) and s.targets[0].id == src.id \
                         and isinstance(s.value, ast.Call) and call_name(s.value) == tup:
                     ok = True
@@ -136,13 +151,13 @@ def check(ctx):
             continue
         src = field_src.get((tup, fld))
         ok = isinstance(src, ast.Name) and src.id == local_of[K]
-        ctx.decide(ok, "R-FLOW/config", construct, f"{m.rel}:{br[K].lineno}",
+        ctx.decide(ok, "R-FLOW/config", construct, where,
                    f"{K} -> {tup}.{fld} unchanged",
                    f"{K} is stored in `{local_of[K]}` but {tup}.{fld} is built from "
                    f"`{ast.unparse(src) if src is not None else None}`: the configured value does not reach its field",
                    key=f"flow:{K}")
         others = [f for f, v in field_src.items() if isinstance(v, ast.Name) and v.id == local_of[K] and f != (tup, fld)]
-        ctx.decide(not others, "R-FLOW/config", construct, f"{m.rel}:{br[K].lineno}", f"{K} feeds no other field",
+        ctx.decide(not others, "R-FLOW/config", construct, where, f"{K} feeds no other field",
                    f"{K} also feeds {others}", key=f"single:{K}", nontrivial=False)
     # locals must not be shared between keys
     inv = {}
@@ -167,61 +182,60 @@ def check(ctx):
                "unknown configuration keys are not rejected with InvalidConfigKey before the values are processed",
                key="unknown_key")
 
-    def cfg_node_of(stmt):
-        for n in cfg.nodes.values():
-            if n.ast is stmt:
-                return n
-        return None
+    def raises_lib(p_, name):
+        return p_.term == "raise" and name in sym.show(p_.value)
+
+    def fact_everywhere(K, has_fact, what, rule, key):
+        """every accepting path carries the validation fact, every path without it raises InvalidConfigValue"""
+        paths = per_key.get(K)
+        if not paths or K not in local_of:
+            return
+        ok, why = True, ""
+        n_acc = 0
+        for p_ in paths:
+            if p_.term in ("fall", "continue"):
+                n_acc += 1
+                if not has_fact(p_):
+                    ok, why = False, "a path stores the value without the test"
+            elif p_.term == "raise":
+                if not raises_lib(p_, "InvalidConfigValue"):
+                    ok, why = False, f"a rejecting path raises {sym.show(p_.value)[:40]}"
+            else:
+                ok, why = False, f"a path ends with {p_.term}"
+        rejecting = [p_ for p_ in paths if p_.term == "raise"]
+        if not rejecting:
+            ok, why = False, "no path rejects the value"
+        ctx.decide(ok and n_acc > 0, rule, construct, where, f"{K}: {what} on every accepting path; the others raise InvalidConfigValue",
+                   f"{K}: the store is not dominated by {what} that raises InvalidConfigValue ({why})", key=key)
 
     for K, members in MEMBERS.items():
-        if K not in br or K not in store_node:
-            continue
-        iff = br[K]
-        tests = [s for s in iff.body if isinstance(s, ast.If)]
-        ok = False
-        for t in tests:
-            tt = t.test
-            if isinstance(tt, ast.Compare) and isinstance(tt.ops[0], ast.NotIn) and ast.unparse(tt.left) == valvar:
-                lst = repo.fold(m, tt.comparators[0])
-                if isinstance(lst, (list, tuple)) and set(lst) == members and _raises_lib(t.body, {"InvalidConfigValue"}) \
-                        and t.lineno < store_node[K].lineno:
-                    ok = True
-        ctx.decide(ok, "R-DOM/membership", construct, f"{m.rel}:{iff.lineno}",
-                   f"{K} outside {sorted(members)} raises InvalidConfigValue before the store",
-                   f"{K}: the store is not dominated by a membership test in exactly {sorted(members)} that raises "
-                   f"InvalidConfigValue", key=f"member:{K}")
+        def member_fact(p_, members=members):
+            for c, tv in p_.conds:
+                if isinstance(c, tuple) and c[0] == "cmp" and c[1] == "In" and c[2] == V and isinstance(c[3], tuple) \
+                        and c[3][0] in ("list", "tuple", "set") and set(c[3][1]) == members and tv is True:
+                    return True
+            eqs = {c[3] for c, tv in p_.conds if isinstance(c, tuple) and c[0] == "cmp" and c[1] == "Eq" and c[2] == V and tv is True}
+            return bool(eqs) and eqs <= members
+        fact_everywhere(K, member_fact, f"a membership test in exactly {sorted(members)}", "R-DOM/membership", f"member:{K}")
     for K in ("LOCAL_NODE_IP_ADDRESS", "PEER_NODE_IP_ADDRESS"):
-        if K not in br or K not in store_node:
-            continue
-        iff = br[K]
-        ok = False
-        for t in iff.body:
-            if isinstance(t, ast.Try):
-                calls = [c for s in t.body for c in ast.walk(s) if isinstance(c, ast.Call)]
-                parse = [c for c in calls if call_name(c).endswith("IPv4Address") and c.args and ast.unparse(c.args[0]) == valvar]
-                in_try = any(store_node[K] is n for s in t.body for n in ast.walk(s)) or \
-                    any(store_node[K] is n for s in t.orelse for n in ast.walk(s))
-                after = parse and (parse[0].lineno, parse[0].col_offset) < (store_node[K].lineno, store_node[K].col_offset)
-                handles = any(
-                    (h.type is None or ast.unparse(h.type).split(".")[-1] in ("AddressValueError", "ValueError", "Exception"))
-                    and _raises_lib(h.body, {"InvalidConfigValue"}) for h in t.handlers)
-                if parse and in_try and after and handles:
-                    ok = True
-        ctx.decide(ok, "R-DOM/ipv4", construct, f"{m.rel}:{iff.lineno}",
-                   f"{K}: IPv4 parse precedes the store; a parse error raises InvalidConfigValue",
-                   f"{K}: the store is not dominated by ipaddress.IPv4Address(value) whose failure raises InvalidConfigValue",
-                   key=f"ipv4:{K}")
+        def ip_fact(p_):
+            parsed = any(e[0] == "ecall" and isinstance(e[1], tuple) and e[1][0] == "call" and sym.show(e[1][1]).endswith("IPv4Address")
+                         and e[1][2][:1] == (V,) for e in p_.effects)
+            in_exc = any(isinstance(c, tuple) and c[0] == "exc" for c, tv in p_.conds)
+            return parsed and not in_exc
+        paths = per_key.get(K) or []
+        # the parse must be protected: a handler of AddressValueError / ValueError that raises InvalidConfigValue
+        prot = any(any(isinstance(c, tuple) and c[0] == "exc" and c[1].split(".")[-1] in ("AddressValueError", "ValueError", "Exception",
+                                                                                          "BaseException") for c, tv in p_.conds)
+                   and raises_lib(p_, "InvalidConfigValue") for p_ in paths)
+        if K in local_of:
+            ctx.decide(prot, "R-DOM/ipv4", construct, where, f"{K}: a parse error raises InvalidConfigValue",
+                       f"{K}: the store is not dominated by ipaddress.IPv4Address(value) whose failure raises InvalidConfigValue",
+                       key=f"ipv4handler:{K}")
+        fact_everywhere(K, ip_fact, "ipaddress.IPv4Address(value)", "R-DOM/ipv4", f"ipv4:{K}")
     K = "WATCHDOG_TIMEOUT"
-    if K in br and K in store_node:
-        iff = br[K]
-        ok = False
-        for t in iff.body:
-            if isinstance(t, ast.If) and ast.unparse(t.test) == f"not isinstance({valvar}, int)" \
-                    and _raises_lib(t.body, {"InvalidConfigValue"}) and t.lineno < store_node[K].lineno:
-                ok = True
-        ctx.decide(ok, "R-DOM/int", construct, f"{m.rel}:{iff.lineno}", "non-int timeout raises InvalidConfigValue before the store",
-                   "WATCHDOG_TIMEOUT: the store is not dominated by an isinstance(value, int) test that raises "
-                   "InvalidConfigValue", key="int:WATCHDOG_TIMEOUT")
+    int_fact = lambda p_: any(c == ("call", ("name", "isinstance"), (V, ("name", "int")), ()) and tv is True for c, tv in p_.conds)
+    fact_everywhere(K, int_fact, "an isinstance(value, int) test", "R-DOM/int", "int:WATCHDOG_TIMEOUT")
     # generic: every store of a validated key is not reachable from the raising branch (CFG)
     # -- 3 rebind ---------------------------------------------------------------------------
     ctx.clause = "3-use-after-rebind"
@@ -325,7 +339,8 @@ def _yaml(ctx, repo, m):
     fn = ctx.need(m.funcs.get("_convert_file_to_config"), "_convert_file_to_config")
     construct = "bromelia._internal_utils._convert_file_to_config"
     where = f"{m.rel}:{fn.lineno}"
-    loops = [s for s in fn.body if isinstance(s, ast.For)]
+    allf = [s for s in walk_no_nested(fn) if isinstance(s, ast.For)]
+    loops = [s for s in allf if not any(s is not o and any(x is s for x in ast.walk(o)) for o in allf)]
     if len(loops) != 1:
         ctx.undecided("R-LOOPCARRY", construct, where, "expected one per-spec loop", key="loop")
         return
